@@ -1311,6 +1311,22 @@ def suite_C08(g, tier):
                 if 0 <= v <= 255:
                     b[i] = v
                     strs.append(bytes(b))
+    # neighbours of l - 1 and l by WORD and by BYTE: the string agrees with the bound above position j, differs there by
+    # +-1, by the top bit of the unit (a comparison done with the wrong signedness), or is 0 / all ones, and everything below
+    # is zeros, ones or unchanged: comparisons done limb-wise, byte-wise or with borrow chains are then exercised at every unit
+    for base in (lm1, L):
+        for unit, count in ((64, 4), (8, 32)):
+            mask = 2**unit - 1
+            for j in range(count):
+                u = (base >> (unit * j)) & mask
+                for repl in {(u + 1) & mask, (u - 1) & mask, u ^ (1 << (unit - 1)), 0, mask} - {u}:
+                    for low in ("same", "zeros", "ones"):
+                        v = (base >> (unit * (j + 1))) << (unit * (j + 1)) | repl << (unit * j)
+                        lowbits = unit * j
+                        v |= {"same": base & (2**lowbits - 1), "zeros": 0, "ones": 2**lowbits - 1}[low]
+                        if unit == 8 and low != "same" and tier == "quick":
+                            continue
+                        strs.append(le(v % 2**256))
     if tier != "quick":
         for i in range(32):
             for base in (lm1, L):
